@@ -16,6 +16,7 @@ LEVEL_NOTE = ("Trusted: Lean kernel, standard axioms; the zipper mirror lean/Any
               "(identity comparison; classes overriding __eq__/__bool__ are C17's subject). 'Correct immediately after any "
               "mutation' is by construction in the model (the functions take only the current links) and is validated by the "
               "history cases; the formal bridge lemma from model A to trees is not proved.")
+MODULES = ['Anytree.Props.C04', 'Anytree.Props.Bridge']
 THEOREMS = [
     ("Anytree.Props.C04.path_eq", "full"),
     ("Anytree.Props.C04.path_chain", "full"),
@@ -38,6 +39,20 @@ THEOREMS = [
     ("Anytree.Props.C04.lcpAll_maximal", "full"),
     ("Anytree.Props.C04.leftSibling_eq", "full"),
     ("Anytree.Props.C04.rightSibling_eq", "full"),
+    ("Anytree.Props.Bridge.kids_labels", "full"),
+    ("Anytree.Props.Bridge.sub_label", "full"),
+    ("Anytree.Props.Bridge.complete", "full"),
+    ("Anytree.Props.Bridge.fuel_stable", "full"),
+    ("Anytree.Props.Bridge.parent_agrees", "full"),
+    ("Anytree.Props.Bridge.child_exists", "full"),
+    ("Anytree.Props.Bridge.existsUnique_addr", "full"),
+    ("Anytree.Props.Bridge.pre_nodup", "full"),
+    ("Anytree.Props.Bridge.mem_pre", "full"),
+    ("Anytree.Props.Bridge.roots_partition", "full"),
+    ("Anytree.Props.Bridge.path_nodes", "full"),
+    ("Anytree.Props.Bridge.parent_attr", "full"),
+    ("Anytree.Props.Bridge.children_attr", "full"),
+    ("Anytree.Props.Bridge.depth_chain", "full"),
 ]
 NOT_COVERED = []
 RULE = ("node classes: plain NodeMixin, LightNodeMixin, and a class with value __eq__/__hash__ under which many distinct nodes "
